@@ -655,6 +655,12 @@ func (g *G) genC10(p *Plan) {
 				op.Sub = "get"
 			}
 		}
+		if g.chance(0.06) && op.Sub != "forcerm" && op.B != "_meta" {
+			// a bucket name that is a path segment of its own, with a key that
+			// begins with the name of a real bucket
+			op.B = g.pick(".", "..", ".", "...")
+			op.Key = c.Buckets[g.rng.Intn(len(c.Buckets))] + "/" + g.pick("victim", "fresh-x", "dir/obj")
+		}
 		if c.Faulty && op.Sub == "put" && g.chance(0.3) {
 			op.Faults = []Fault{{Kind: g.pick("eio", "enospc"), At: g.n(1, 10), N: 3}}
 		}
